@@ -243,9 +243,9 @@ impl Compiler {
         _object: &TypedExpr,
         _range: &TypedExpr,
         _dest: u8,
-        _span: Span,
+        span: Span,
     ) -> Result<()> {
-        todo!("slice")
+        Err(self.unsupported("slice expressions (`a[i..j]`)", span))
     }
 
     pub(super) fn compile_typed_range(
@@ -254,9 +254,9 @@ impl Compiler {
         _end: &Option<Box<TypedExpr>>,
         _inclusive: bool,
         _dest: u8,
-        _span: Span,
+        span: Span,
     ) -> Result<()> {
-        todo!("range")
+        Err(self.unsupported("range expressions outside a `for` loop", span))
     }
 
     fn select_typed_opcode(
